@@ -223,6 +223,11 @@ func (m *Machine) pick(curEnabled bool, exiting bool) {
 				if m.quiesceWaiter == cur && !exiting {
 					return
 				}
+				if !exiting && !m.settling && !m.inInit {
+					// the last runnable goroutine blocked and everything is quiet: control returns to the goroutine
+					// waiting in vfQuiesce - an ordinary hand-over for the native replay controller
+					m.sched = append(m.sched, SchedEntry{Kind: "block", From: cur.id, Points: cur.points, To: m.quiesceWaiter.id})
+				}
 				m.switchTo(m.quiesceWaiter, exiting)
 				return
 			}
@@ -618,6 +623,11 @@ func (m *Machine) after(d int64) *ChanObj {
 		t.when = m.now
 	}
 	m.timers = append(m.timers, t)
+	if d <= 0 {
+		// a timer that is due at once fires at once (the real runtime delivers it "immediately"): a select that follows
+		// finds its channel ready next to whatever else is ready
+		m.fireDue()
+	}
 	return ch
 }
 
